@@ -8,12 +8,15 @@ import (
 	"path/filepath"
 	"sort"
 	"strings"
+	"sync"
+	"sync/atomic"
 	"time"
 
 	"github.com/ErdemOzgen/blackdagger/internal/dag/scheduler"
 	"github.com/ErdemOzgen/blackdagger/internal/persistence"
 	"github.com/ErdemOzgen/blackdagger/internal/persistence/jsondb"
 	"github.com/ErdemOzgen/blackdagger/internal/persistence/model"
+	"github.com/ErdemOzgen/blackdagger/internal/verifhook"
 	"github.com/ErdemOzgen/blackdagger/verifh/core"
 )
 
@@ -465,6 +468,10 @@ func baseNames(fs []string) []string {
 }
 
 func c06Body(c *core.Ctx) {
+	if c.Mode == "quiesce" {
+		c06Quiesce(c)
+		return
+	}
 	n := c.Pick(400, 20000)
 	nops := c.Pick(30, 60)
 	if c.Mode == "race" {
@@ -485,6 +492,130 @@ func c06Body(c *core.Ctx) {
 	}
 }
 
+// c06Quiesce: readers on a long-lived (caching) store race a burst of manual
+// updates made through another instance; nothing is judged while they race,
+// but once everybody has stopped every query must return the last update —
+// a stale cache entry that outlives the race is a wrong answer for a history
+// that is perfectly sequential from then on.
+func c06Quiesce(c *core.Ctx) {
+	rounds := c.Pick(60, 1500)
+	if c.Race {
+		rounds = c.Pick(24, 300)
+	}
+	for idx := 0; idx < rounds; idx++ {
+		if !c.Mine(idx) {
+			continue
+		}
+		r := c.Rand("quiesce", idx)
+		root, err := os.MkdirTemp(c.Scratch, "c06q-")
+		if err != nil {
+			c.Inconclusive("mkdtemp")
+			return
+		}
+		dagFile := filepath.Join(root, "dags", "q.yaml")
+		data := filepath.Join(root, "data")
+		size := []int{2000, 200000, 600000, 1200000}[r.Intn(4)]
+		desc := map[string]any{"round": idx, "payload": size}
+		c.Begin(idx, desc)
+		start := time.Now().UTC().Add(-time.Hour)
+		req := fmt.Sprintf("%08d-q", idx)
+		w := jsondb.New(data, false)
+		var idc atomic.Int64 // the hook runs on a reader goroutine
+		idc.Store(int64(idx * 100))
+		_ = w.Open(dagFile, start, req)
+		_ = w.Write(mkStatus(dagFile, req, start, int(idc.Load()), size))
+		_ = w.Close()
+		reader := jsondb.New(data, false) // the server's instance
+		_ = reader.ReadStatusRecent(dagFile, 1)
+		stop := make(chan struct{})
+		done := make(chan struct{}, 3)
+		for g := 0; g < 3; g++ {
+			go func(g int) {
+				defer func() { done <- struct{}{} }()
+				for {
+					select {
+					case <-stop:
+						return
+					default:
+					}
+					switch g {
+					case 0:
+						_ = reader.ReadStatusRecent(dagFile, 1)
+					case 1:
+						_, _ = reader.ReadStatusToday(dagFile)
+					default:
+						_ = reader.ReadStatusRecent(dagFile, 3)
+					}
+				}
+			}(g)
+		}
+		upd := jsondb.New(data, false) // another process (agent, CLI)
+		// Controlled interleaving in half of the rounds: the first time the
+		// server's store has loaded the file and is about to cache it, the other
+		// instance appends an update (between the load and the store).
+		var hookOnce sync.Once
+		hooked := idx%2 == 0
+		if hooked {
+			verifhook.Set(func(name string, arg any) {
+				if name != "filecache.loaded" {
+					return
+				}
+				if f, _ := arg.(string); !strings.Contains(f, filepath.Base(root)) {
+					return
+				}
+				hookOnce.Do(func() {
+					_ = upd.Update(dagFile, req, mkStatus(dagFile, req, start, int(idc.Add(1)), size))
+					c.Count("updates_between_load_and_cache_store", 1)
+				})
+			})
+		}
+		nupd := 2 + r.Intn(3)
+		if hooked {
+			nupd = 1
+		}
+		for u := 0; u < nupd; u++ {
+			if err := upd.Update(dagFile, req, mkStatus(dagFile, req, start, int(idc.Add(1)), size)); err != nil {
+				c.Inconclusive("c06 quiesce: update failed: " + err.Error())
+			}
+			time.Sleep(time.Duration(r.Intn(3000)) * time.Microsecond)
+		}
+		if hooked {
+			time.Sleep(5 * time.Millisecond) // let a reader notice the update and reload
+		}
+		close(stop)
+		for g := 0; g < 3; g++ {
+			<-done
+		}
+		if hooked {
+			verifhook.Set(nil)
+		}
+		id := int(idc.Load())
+		c.Eval(1)
+		c.Count("obligations", 3)
+		c.Count("racing_updates", int64(nupd))
+		rec := reader.ReadStatusRecent(dagFile, 1)
+		if len(rec) != 1 || writeID(rec[0].Status) != id {
+			got := -1
+			if len(rec) == 1 {
+				got = writeID(rec[0].Status)
+			}
+			c.Violate(idx, "stale-after-quiescence|recent", fmt.Sprintf("after readers and a burst of %d updates have stopped, ReadStatusRecent on the long-lived store returns write w%d, the last update was w%d", nupd, got, id), desc)
+		}
+		if st, err := reader.ReadStatusToday(dagFile); err != nil || writeID(st) != id {
+			c.Violate(idx, "stale-after-quiescence|today", fmt.Sprintf("after readers and updates have stopped, ReadStatusToday on the long-lived store returns write w%d (err=%v), the last update was w%d", writeID(st), err, id), desc)
+		}
+		if sf, err := reader.FindByRequestID(dagFile, req); err != nil || writeID(sf.Status) != id {
+			c.Violate(idx, "stale-after-quiescence|find", fmt.Sprintf("after readers and updates have stopped, FindByRequestID does not return the last update w%d (err=%v)", id, err), desc)
+		}
+		c.Sig("quiesce", idx, size, nupd)
+		if idx%37 == 0 {
+			c.Sample(desc)
+		}
+		os.RemoveAll(root)
+		c.End(idx)
+	}
+}
+
 func init() {
 	core.RaceGate["C06"] = []string{"jsondb.(*writer).open", "jsondb.(*writer).write", "jsondb.(*writer).close"}
 	core.Register(&core.Prop{ID: "C06", Level: "exploration", Body: c06Body, CrashKey: crashKeyGeneric, MinDistinct: 30,
@@ -492,9 +623,11 @@ func init() {
 			return []core.Pass{
 				{Name: "main", Mode: "controlled", Shards: 16, Timeout: 60 * time.Minute},
 				{Name: "race", Mode: "race", Race: true, Shards: 16, Timeout: 60 * time.Minute},
+				{Name: "quiesce", Mode: "quiesce", Shards: 8, Timeout: 60 * time.Minute},
+				{Name: "quiesce-race", Mode: "quiesce", Race: true, Shards: 8, Timeout: 60 * time.Minute},
 			}
 		},
-		Rule: "Random operation sequences (30 (60) ops) against the real jsondb over 2-5 DAG files drawn from a hostile name pool (spaces, dots, shared prefixes a/ab/a-b, the compaction suffix x_c, a timestamp-like name, non-ASCII, same base name in two directories; in 35% of the sequences glob metacharacters * ? [ ] \\). Ops: record a run (Open / 1-4 Write / Close with compaction, each by its own store instance like a real agent process; start times from a pool that puts runs in the same millisecond, same second, same minute, a minute apart, and on both sides of today's midnight; payloads 0 B - 70 KB non-ASCII), Update through the long-lived server instance (file cache in play), Rename to a fresh name, RemoveOld(1/3/7/30 days; file mtimes set with Chtimes to 0/2/5/10/40 days + 6 h), RemoveAll. After EVERY operation, for EVERY DAG: FindByRequestID of every model run (each write carries a unique id, so the answer names the write it came from) and of every removed/foreign id, ReadStatusRecent(n) for n in {1,2,len,len+3} against 'n most recently started, newest first' (identical milliseconds are an unordered tie), ReadStatusToday under both latestStatusToday settings; a fresh instance re-asks at the end. RemoveOld is judged one-sidedly (younger runs must survive). Non-trivial = every sequence (>= 30 ops, each followed by the full query set). Distinct = distinct operation sequences.",
+		Rule: "Random operation sequences (30 (60) ops) against the real jsondb over 2-5 DAG files drawn from a hostile name pool (spaces, dots, shared prefixes a/ab/a-b, the compaction suffix x_c, a timestamp-like name, non-ASCII, same base name in two directories; in 35% of the sequences glob metacharacters * ? [ ] \\). Ops: record a run (Open / 1-4 Write / Close with compaction, each by its own store instance like a real agent process; start times from a pool that puts runs in the same millisecond, same second, same minute, a minute apart, and on both sides of today's midnight; payloads 0 B - 70 KB non-ASCII), Update through the long-lived server instance (file cache in play), Rename to a fresh name, RemoveOld(1/3/7/30 days; file mtimes set with Chtimes to 0/2/5/10/40 days + 6 h), RemoveAll. After EVERY operation, for EVERY DAG: FindByRequestID of every model run (each write carries a unique id, so the answer names the write it came from) and of every removed/foreign id, ReadStatusRecent(n) for n in {1,2,len,len+3} against 'n most recently started, newest first' (identical milliseconds are an unordered tie), ReadStatusToday under both latestStatusToday settings; a fresh instance re-asks at the end. RemoveOld is judged one-sidedly (younger runs must survive). Non-trivial = every sequence (>= 30 ops, each followed by the full query set). Distinct = distinct operation sequences. Quiescence passes (plain and under the race detector): 60 (1500) rounds in which three reader goroutines query a long-lived caching store while another instance makes a burst of 2-4 manual updates of a 2 kB - 1.2 MB status; nothing is judged while they race, but after everybody has stopped all three queries must return the last update.",
 		Assumptions: []string{"request ids have distinct 8-character prefixes (file names keep 8 characters; real ids are UUIDs)",
-			"runs with zero writes are not generated (C07 owns that window)", "readers racing a writer are not judged"}})
+			"runs with zero writes are not generated (C07 owns that window)", "answers given while readers race a writer are not judged; what is returned after they have stopped is"}})
 }
